@@ -325,6 +325,14 @@ func (q *Q) declare(name, sort string) string {
 	return name
 }
 
+func (q *Q) declareSortOnce(name string) {
+	if _, ok := q.declared["sort:"+name]; ok {
+		return
+	}
+	q.declared["sort:"+name] = name
+	q.sortDecls = append(q.sortDecls, fmt.Sprintf("(declare-sort %s 0)", name))
+}
+
 func (q *Q) declareFun(name string, args []string, ret string) string {
 	sig := "(" + strings.Join(args, " ") + ") " + ret
 	if old, ok := q.declared[name]; ok {
